@@ -1834,9 +1834,10 @@ class TrajectoryStore:
                 )
             case (False, True, False):
                 # ThrustModeValues
-                return ThrustModeValues(
-                    {tm: var[index, ti] for ti, tm in enumerate(ThrustMode)}
-                )
+                values = {tm: var[index, ti] for ti, tm in enumerate(ThrustMode)}
+                if all(v == var.get_fill_value() for v in values.values()):
+                    return None
+                return ThrustModeValues(values)
             case (True, True, False):
                 # SpeciesValues[ThrustModeValues]: only species that were
                 # written for this field.
